@@ -42,6 +42,12 @@ def library_faults():
     for m in [b"CMD 1 2", b"CMD 'abc", b"CMD #", b"A::B", b"CMD 1,,2", b"CMD \x80", b"ABCDEFGHIJKLM", b"CMD 1ABCDEFGHIJKLMN", b"CMD #19", b"CMD (\""]:
         out.append(("lex h %s" % hexs(m), "syntax"))
     out.append(("nv i32 %s M10,m-10" % hexs(b"11"), "value")); out.append(("nv u8 %s -" % hexs(b"UP"), "value"))
+    for ty, bounds in (("f32", "M41200000,mc1200000"), ("f64", "M4024000000000000,mc024000000000000"), ("f32", "-"), ("qfreq", "M41200000")):
+        for tok in (b"NAN", b"nan", b"INF", b"NINF", b"1e30", b"-1e30", b"DEF", b"DOWN"):
+            if ty == "qfreq" and tok.upper() in (b"NAN", b"INF", b"NINF"): continue
+            if bounds == "-" and tok in (b"INF", b"NINF", b"1e30", b"-1e30"): continue
+            if ",m" not in bounds and tok in (b"-1e30", b"NINF"): continue        # no lower bound configured: in range
+            out.append(("nv %s %s %s" % (ty, hexs(tok), bounds), "value"))
     # response buffer exhausted, undefined header, missing / extra parameter through a tree
     tree = "L%s#1;" % hexs(b"CMD")
     out.append(("tree 3 %s 1:r/di12345 %s" % (tree, hexs(b"CMD?")), "value"))
